@@ -445,7 +445,13 @@ class Interp:
         return text if len(text) < 120 else text[:117] + "..."
 
     # ----------------------------------------------------------------- conditions
+    @staticmethod
+    def normalize_cond(expr: ast.AST) -> ast.AST:
+        from .rules import normalize_test
+        return normalize_test(expr)
+
     def cond(self, expr: ast.AST) -> bool:
+        expr = self.normalize_cond(expr)
         if isinstance(expr, ast.BoolOp):
             if isinstance(expr.op, ast.And):
                 for o in expr.values:
@@ -477,6 +483,11 @@ class Interp:
         if isinstance(val, Tup):
             return len(val.items) > 0
         text = vtext(val)
+        # any((gen)) / all((gen)): one canonical spelling (same text as the any-match loop summary)
+        import re as _re
+        m = _re.fullmatch(r"(any|all)\(\((.*)\)\)", text, _re.S)
+        if m:
+            text = f"{m.group(1)}({m.group(2)})"
         f = self.hooks.atom(text, node, self)
         if f is None:
             f = "?" + text
@@ -565,8 +576,12 @@ class Interp:
                     new = Sym(ast.unparse(ast.parse(f"({vtext(cur)}) {sym} ({vtext(val)})", mode="eval").body))
                 except SyntaxError:
                     new = Sym(f"({vtext(cur)}) {sym} ({vtext(val)})")
-            self.emit(self._aug(st, cur, val))
-            self.bind(st.target, new)
+            aug_ev = self._aug(st, cur, val)
+            self.emit(aug_ev)
+            if aug_ev is None or not getattr(self.hooks, "aug_inplace", False):
+                # a hook that recognises the statement as an in-place update (`acc += xs` = `acc.extend(xs)`)
+                # reports it as an event and the accumulator keeps its name
+                self.bind(st.target, new)
         elif isinstance(st, ast.Return):
             raise _Return(self.ev(st.value) if st.value is not None else Const(None))
         elif isinstance(st, ast.Raise):
